@@ -809,16 +809,19 @@ char * scpiheap_strndup(scpi_error_info_heap_t * heap, const char *s, size_t n) 
     const char * ptrs = s;
     char * head = &heap->data[heap->wr];
     size_t rem = heap->size - (&heap->data[heap->wr] - heap->data);
+    size_t copy = len - 1; /* text bytes only, the terminator is written below */
 
     if (len >= rem) {
-        memcpy(&heap->data[heap->wr], s, rem);
+        size_t first = (copy < rem) ? copy : rem;
+        memcpy(&heap->data[heap->wr], s, first);
+        copy -= first;
         len = len - rem;
-        ptrs += rem;
+        ptrs += first;
         heap->wr = 0;
         heap->count -= rem;
     }
 
-    memcpy(&heap->data[heap->wr], ptrs, len);
+    memcpy(&heap->data[heap->wr], ptrs, copy);
     heap->wr += len;
     heap->count -= len;
 
